@@ -191,9 +191,10 @@ func CrashCase(c *core.Case, plan CrashPlan, p int) {
 	if p > len(evs) {
 		p = len(evs)
 	}
-	if plan.Second && !(p > 0 && strings.Contains(evs[p-1].Desc, "ConsensusState ")) {
+	if plan.Second && !plan.Torn && !(p > 0 && strings.Contains(evs[p-1].Desc, "ConsensusState ")) {
 		// second-crash plans take as first crash only the points right after a consensus-state save (the block is fully
-		// applied; what follows is only in unsynced buffers)
+		// applied; what follows is only in unsynced buffers); with torn images every point is taken (a first crash that
+		// falls into a known recovery gap is skipped after the restart)
 		run.Count("second_crash_first_points_skipped", 1)
 		return
 	}
@@ -396,6 +397,17 @@ func CrashCase(c *core.Case, plan CrashPlan, p int) {
 			return
 		}
 		run.Count("restarts", 1)
+		if os.Getenv("VERIF_DEBUG_C05") != "" {
+			fmt.Fprintf(os.Stderr, "stage %d restart: cause=%s image %d bytes (synced %d)\n  image: %s\n", stage, cause, len(curImg), walSize, strings.Join(walSummary(curImg), " | "))
+			if b, err := os.ReadFile(nn.WAL.path); err == nil {
+				fmt.Fprintf(os.Stderr, "  file after start (%d bytes): %s\n", len(b), strings.Join(walSummary(b), " | "))
+			}
+			for _, e := range nn.Tr.Since(0) {
+				if e.Kind == EvSignVote || e.Kind == EvSignProp || e.Kind == EvSaveBlock || e.Kind == EvCreate {
+					fmt.Fprintf(os.Stderr, "  during start: kind=%v h=%d r=%d\n", e.Kind, e.Height, e.Round)
+				}
+			}
+		}
 		if plan.Second && plan.Torn && stage == 1 && cause != "state-consistent-after-restart" {
 			// the first crash fell into one of the recovery gaps (judged by the single-crash plans): what a second
 			// crash makes of it is not attributed
@@ -651,6 +663,29 @@ func GoldenLen(plan CrashPlan) (total int, start int, err error) {
 		}
 	}
 	return net.Nodes[plan.Victim].Dur.Len(), start, nil
+}
+
+// walSummary lists the records of a WAL image (debugging aid).
+func walSummary(img []byte) []string {
+	var out []string
+	dec := consensus.NewWALDecoder(bytesReader(img))
+	for {
+		m, err := dec.Decode()
+		if err != nil {
+			out = append(out, "-> "+err.Error())
+			return out
+		}
+		switch x := m.Msg.(type) {
+		case consensus.EndHeightMessage:
+			out = append(out, fmt.Sprintf("ENDHEIGHT %d", x.Height))
+		case consensus.VerifMsgInfo:
+			out = append(out, fmt.Sprintf("msg peer=%q %s", x.PeerID, msgLabel(x.Msg)))
+		case consensus.VerifTimeoutInfo:
+			out = append(out, fmt.Sprintf("timeout %d/%d/%v", x.Height, x.Round, x.Step))
+		default:
+			out = append(out, fmt.Sprintf("%T", m.Msg))
+		}
+	}
 }
 
 // walHasEndHeight reports whether the WAL image contains the end marker of height h.
